@@ -47,6 +47,26 @@ def access_program(t, index, runtime, in_sub):
     return abiprog.wrap(body, in_sub)
 
 
+def mixed_sub_program(t, index, runtime, abi_first):
+    """the access happens inside a subroutine that takes the decoded ABI value AND a plain expression (the index): a
+    signature mixing ABI-typed and untyped parameters"""
+    spec = abitypes.to_spec(t)
+    et = elem_type(t, index if t["k"] == "tuple" else 0)
+
+    def body(x, i):
+        y = abitypes.to_spec(et).new_instance()
+        return pt.Seq(x[i if runtime else index].store_into(y), pt.Log(y.encode()))
+    ns = {"pt": pt, "ann": spec.annotation_type(), "body": body}
+    if abi_first:
+        exec("def elem(x: ann, i: pt.Expr):\n    return body(x, i)\n", ns)
+    else:
+        exec("def elem(i: pt.Expr, x: ann):\n    return body(x, i)\n", ns)
+    sub = pt.Subroutine(pt.TealType.none)(ns["elem"])
+    x0 = spec.new_instance()
+    ix = pt.Btoi(pt.Txn.application_args[1]) if runtime else pt.Int(index)
+    return pt.Seq(x0.decode(pt.Txn.application_args[0]), sub(x0, ix) if abi_first else sub(ix, x0), pt.Int(1))
+
+
 def length_program(t, in_sub):
     def body():
         x = abitypes.to_spec(t).new_instance()
@@ -141,6 +161,10 @@ def main():
                         for i in oob:
                             cases.append(([v["enc"], itob(i)], abiprog.expect_fail(), "value#%d idx=%d out-of-range" % (j, i)))
                     add(lambda t=t, s=in_sub: access_program(t, 0, True, s), "%s [run-time] %s" % (d["sig"], "sub" if in_sub else "main"), cases)
+                    if not in_sub and d["sig"].count("(") + d["sig"].count("[") <= 2:
+                        ok_cases = [c for c in cases if "out-of-range" not in c[2]]
+                        for abi_first in (True, False):
+                            add(lambda t=t, af=abi_first: mixed_sub_program(t, 0, True, af), "%s [run-time] mixed-signature-sub %s" % (d["sig"], "abi-first" if abi_first else "expr-first"), ok_cases)
         if k in ("darray", "string"):
             cases = [([v["enc"]], abiprog.expect_log([itob(len(v["comps"]))]), "value#%d" % j) for j, v in enumerate(d["vals"])]
             add(lambda t=t: length_program(t, False), "%s length()" % d["sig"], cases)
